@@ -307,14 +307,17 @@ def check_defects(res, v):
             continue
         name, d, when = item
         name += when
-        for how in ('Message', 'check', 'parse_segment'):
+        for how in ('Message', 'check', 'parse_segment', 'assign'):
             res.evaluations += 1
             res.enumerated += 1
             res.states += 1
             res.transitions += 1
             point = {'kind': 'defect', 'v': v}
             try:
-                if how == 'Message':
+                if how == 'assign':
+                    # an existing message (built with its defaults) is given the set through its public attribute
+                    Message('ADT_A01', version=v).encoding_chars = (dict(d) if isinstance(d, dict) else d)
+                elif how == 'Message':
                     Message('ADT_A01', version=v, encoding_chars=(dict(d) if isinstance(d, dict) else d))
                 elif how == 'check':
                     check_encoding_chars(dict(d) if isinstance(d, dict) else d)
@@ -395,9 +398,33 @@ def run_unit(unit, tier):
         check_defects(res, unit[1])
     else:
         v = unit[1]
+        from hl7apy.core import Message
         check_set(res, v, ('|', '^', '&', '~', '\\'))
         if v >= '2.7':
             check_set(res, v, ('|', '^', '&', '~', '\\', '#'))
+        # sets that differ from the default one in exactly one role (a standard-looking MSH-2 with another MSH-1, ...)
+        base = ['|', '^', '&', '~', '\\']
+        for i, ch in enumerate(('!', '$', '*', '?', '@')):
+            t = list(base)
+            t[i] = ch
+            check_set(res, v, tuple(t))
+            if v >= '2.7':
+                check_set(res, v, tuple(t) + ('#',))
+                check_set(res, v, tuple(t) + ('%',))
+        # the dictionary read from one message belongs to that message: using another message afterwards must not change it
+        a = Message('ADT_A01', version=v, encoding_chars=ec_of(('!', '$', '*', '?', '@')))
+        held = a.encoding_chars
+        before = dict(held)
+        b = Message('ADT_A01', version=v)
+        b.encoding_chars
+        b.to_er7()
+        res.evaluations += 1
+        res.enumerated += 1
+        res.states += 1
+        res.transitions += 2
+        if held != before:
+            res.violation('readback-aliased|%s' % fam(v), 'v%s: the set read from one message %r became %r after another message was used'
+                          % (v, before, held), {'kind': 'defaults', 'v': v}, 1)
         res.sample({'v': v, 'reference': expected(v, ec_of(('|', '^', '&', '~', '\\')))[0]}, cap=2)
     res.expected_size = res.enumerated
     return res
@@ -413,5 +440,7 @@ def run(tier, seed, extra):
 def replay(point, res):
     if point['kind'] == 'set':
         check_set(res, point['v'], tuple(point['t']))
+    elif point['kind'] == 'defaults':
+        res.merge(run_unit(('defaults', point['v']), 'quick'))
     else:
         check_defects(res, point['v'])
